@@ -236,6 +236,39 @@ def run_case(case, drv):
                     res.corr_break("_get_partition", "partition (class and member order) differs from the "
                                    "faithful Hopcroft model", detail={"impl": impl_exact, "model": hop})
                 res.tag("hopcroft_classes_%d" % min(len(hop), 5))
+    # ---- an automaton returned by minimize() and then edited in place is an automaton like any other -------
+    st_m, Mobj = outcome(fa.minimize)
+    if st_m == "ok" and len(Mobj.states) >= 1:
+        import random as _r
+        erng = _r.Random(len(sa["delta"]) * 31 + len(sa["finals"]))
+        edges = list(Mobj._transition_function.get_edges())   # pylint: disable=protected-access
+        edited = False
+        if edges and erng.random() < 0.6:
+            q_, a_, r_ = edges[erng.randrange(len(edges))]
+            Mobj.remove_transition(q_, a_, r_)
+            edited = True
+        elif Mobj.final_states:
+            Mobj.remove_final_state(sorted(Mobj.final_states, key=lambda z: str(z.value))[0])
+            edited = True
+        if edited:
+            Ex = F.renumber(F.extract_named(Mobj, ycodes))
+            d_e = drv.call("fa.diff", A=Ex, B=B)
+            for opname, f in (("is_equivalent_to(edited minimal)", lambda: Mobj.is_equivalent_to(fb)),
+                              ("is_equivalent_to(edited minimal).rev", lambda: fb.is_equivalent_to(Mobj))):
+                got = outcome(f)
+                res.evals += 1
+                if got != ("ok", d_e["equiv"]):
+                    res.violation(opname, "verdict differs from language equality for a minimised automaton edited in place",
+                                  detail={"impl": got, "languages_equal": d_e["equiv"], "word": d_e["word"]}, scope=scope)
+            # and against a freshly built copy of itself
+            st_c, Cobj = outcome(lambda: F.build_from_extract(Ex, list(ycodes.values)))
+            if st_c == "ok":
+                got = outcome(lambda: Mobj.is_equivalent_to(Cobj))
+                res.evals += 1
+                if got != ("ok", True):
+                    res.violation("is_equivalent_to(edited minimal)", "an edited automaton is not equivalent to a fresh copy of itself",
+                                  detail={"impl": got}, scope=scope)
+            res.tag("edited_minimal")
     if truth["equiv"] and mins[0] is not None and mins[1] is not None:
         res.evals += 1
         if not drv.call("fa.iso", A=mins[0], B=mins[1]):
